@@ -392,3 +392,183 @@ func isAddSegOf(e ssa.Value, childErr func(ssa.Value) bool) bool {
 	}
 	return childErr(call.Call.Args[0])
 }
+
+// R-ELEMPATH (C17 "the returned error identifies that element: its path leads from the root to it"): a container that
+// itself rejects one of its elements - an undeclared key, a discriminator that is missing, of the wrong type or not
+// allowed - must end the error's path with that element, exactly as the error of a missing or invalid property ends
+// with the property's name. Structurally: a ConstraintError literal whose message is formatted from
+//
+//	(1) the one-of's discriminator field name (the string field tagged `discriminator_field_name` of the receiver), or
+//	(2) a parameter of the enclosing function that, at every call site, is a key of the data being processed (an element
+//	    of reflect.Value.MapKeys(), a range key, or a type assertion of one),
+//
+// also stores a Path.
+func (c *Ctx) ruleElemPath(rule string) {
+	isCE := func(t types.Type) bool {
+		if p, ok := t.Underlying().(*types.Pointer); ok {
+			t = p.Elem()
+		}
+		n, ok := t.(*types.Named)
+		return ok && n.Obj().Name() == "ConstraintError"
+	}
+	discField := func(v ssa.Value) bool {
+		ld, ok := v.(*ssa.UnOp)
+		if !ok {
+			return false
+		}
+		fa, ok := ld.X.(*ssa.FieldAddr)
+		if !ok {
+			return false
+		}
+		st := fieldsOfType(fa.X.Type())
+		return st != nil && fa.Field < st.NumFields() && strings.Contains(st.Tag(fa.Field), `json:"discriminator_field_name"`)
+	}
+	var isDataKey func(v ssa.Value, depth int) bool
+	isDataKey = func(v ssa.Value, depth int) bool {
+		if depth > 5 {
+			return false
+		}
+		switch x := v.(type) {
+		case *ssa.MakeInterface:
+			return isDataKey(x.X, depth+1)
+		case *ssa.ChangeInterface:
+			return isDataKey(x.X, depth+1)
+		case *ssa.TypeAssert:
+			return isDataKey(x.X, depth+1)
+		case *ssa.Extract:
+			if nx, ok := x.Tuple.(*ssa.Next); ok {
+				return x.Index == 1 && !nx.IsString
+			}
+			return isDataKey(x.Tuple, depth+1)
+		case *ssa.Call:
+			if reflectValueMethod(x) == "Interface" {
+				return isDataKey(x.Call.Args[0], depth+1)
+			}
+			if reflectValueMethod(x) == "Key" { // MapRange iterator
+				return true
+			}
+		case *ssa.UnOp:
+			if ia, ok := x.X.(*ssa.IndexAddr); ok {
+				if mk, ok := ia.X.(*ssa.Call); ok && reflectValueMethod(mk) == "MapKeys" {
+					return true
+				}
+			}
+		}
+		return false
+	}
+	paramIsKeyEverywhere := func(fn *ssa.Function, p *ssa.Parameter) bool {
+		pi := -1
+		for i, q := range fn.Params {
+			if q == p {
+				pi = i
+			}
+		}
+		sites := 0
+		for _, g := range c.M.Funcs {
+			for _, b := range g.Blocks {
+				for _, in := range b.Instrs {
+					ci, ok := in.(ssa.CallInstruction)
+					if !ok {
+						continue
+					}
+					hit := false
+					for _, callee := range c.M.Callees(ci.Common()) {
+						if callee == fn {
+							hit = true
+						}
+					}
+					if !hit {
+						continue
+					}
+					ai := pi
+					if ci.Common().IsInvoke() {
+						ai = pi - 1
+					}
+					if ai < 0 || ai >= len(ci.Common().Args) {
+						return false
+					}
+					sites++
+					if !isDataKey(ci.Common().Args[ai], 0) {
+						return false
+					}
+				}
+			}
+		}
+		return sites > 0
+	}
+	n := 0
+	for _, fn := range c.M.SortedFuncs(c.scopeData()) {
+		cnt := 0
+		for _, b := range fn.Blocks {
+			for _, in := range b.Instrs {
+				al, ok := in.(*ssa.Alloc)
+				if !ok || !isCE(al.Type()) {
+					continue
+				}
+				var msg ssa.Value
+				hasPath := false
+				for _, r := range *al.Referrers() {
+					fa, ok := r.(*ssa.FieldAddr)
+					if !ok {
+						continue
+					}
+					name := fieldName(fa.X.Type(), fa.Field)
+					for _, r2 := range *fa.Referrers() {
+						st, ok := r2.(*ssa.Store)
+						if !ok || st.Addr != ssa.Value(fa) {
+							continue
+						}
+						switch name {
+						case "Message":
+							msg = st.Val
+						case "Path":
+							if !core.IsNilConst(st.Val) {
+								hasPath = true
+							}
+						}
+					}
+				}
+				call, ok := msg.(*ssa.Call)
+				if !ok || !strings.HasSuffix(core.StaticCalleeName(&call.Call), "fmt.Sprintf") || len(call.Call.Args) < 2 {
+					continue
+				}
+				what := ""
+				for _, a := range variadicElems(call.Call.Args[1]) {
+					a = core.Unwrap(a)
+					if mi, ok := a.(*ssa.MakeInterface); ok {
+						a = mi.X
+					}
+					if discField(a) {
+						what = "the discriminator field"
+					}
+					if p, ok := a.(*ssa.Parameter); ok && paramIsKeyEverywhere(fn, p) {
+						what = "a key of the data (parameter " + p.Name() + ", a data key at every call site)"
+					}
+				}
+				if what == "" {
+					continue
+				}
+				n++
+				cnt++
+				k := key(rule, c.M.Key(fn), sprintf("rejection #%d that names %s in its text names it in its path", cnt, what))
+				if hasPath {
+					c.R.Ok(rule, k, c.M.InstrPos(al), "error raised by a container about one of its elements", "the literal stores a Path")
+				} else {
+					c.R.Bad(rule, k, c.M.InstrPos(al), "an error about "+what+" has no path segment for it",
+						"the path of this rejection stops at the enclosing container (it is empty at the root): the element at fault is only named in the message text, unlike a missing or invalid property at the same place")
+				}
+			}
+		}
+	}
+	if n < 6 {
+		c.R.Unresolved(rule, sprintf("constraint errors that name a discriminator field or a data key in their text (%d found, at least 6 expected)", n))
+	}
+}
+
+func fieldsOfType(t types.Type) *types.Struct {
+	if p, ok := t.Underlying().(*types.Pointer); ok {
+		t = p.Elem()
+	}
+	st, _ := t.Underlying().(*types.Struct)
+	return st
+}
